@@ -27,9 +27,14 @@ rc, out = sh(f"timeout 900 /venv/bin/python -m pytest -q -p no:cacheprovider -n 
 meta["suite_with_change"] = out.strip()
 rc1, out1 = sh(f"timeout 300 /venv/bin/python _seed/demo.py", cwd=wt)
 meta["demo_with_change"] = {"exit": rc1, "tail": out1.strip()[-300:]}
-sh(f"git -C {wt} stash")
-rc0, out0 = sh(f"timeout 300 /venv/bin/python _seed/demo.py", cwd=wt)
-sh(f"git -C {wt} stash pop")
+# (git stash is shared between the worktrees of one repository: reverse-apply the patch instead)
+rcr, outr = sh(f"git -C {wt} apply -R {seed}/patch.diff")
+assert rcr == 0, outr
+try:
+    rc0, out0 = sh(f"timeout 300 /venv/bin/python _seed/demo.py", cwd=wt)
+finally:
+    rca, outa = sh(f"git -C {wt} apply {seed}/patch.diff")
+    assert rca == 0, outa
 meta["demo_without_change"] = {"exit": rc0, "tail": out0.strip()[-300:]}
 meta["confirmed"] = bool(re.search(r"\b\d+ passed", meta["suite_with_change"]) and not re.search(r"\b\d+ (failed|error)", meta["suite_with_change"]) and rc1 != 0 and rc0 == 0)
 # run the checks against it
